@@ -65,6 +65,33 @@ TIdent(G, C, T) == LET A == An(SubG(G, T), C) IN
 TianOK(G, X, Y) == LET D == An(SubG(G, G.n \ X), Y) IN
    \A Dj \in Districts(SubG(G, D)) : TIdent(G, Dj, Pick({Sj \in Districts(G) : Dj \subseteq Sj}))
 
+
+\* ---------------------------------------------------------------- Tian & Pearl: c-factors and IDENTIFY as terms
+\* Q[S] = P(S | do(V \ S)).  Lemma 1: the c-factor of a district T of G from the observational joint
+\* and a topological order; Lemma 3: marginalising an ancestral set; Lemma 4: the c-factor of a district
+\* Tp of G[Hs] from Q[Hs] (QH a term over Hs) and the order restricted to Hs.
+SubOrder(topo, S) == SelectSeq(topo, LAMBDA v : v \in S)
+QLemma1(V, T, topo) == ProdT(SeqOfSet(LAMBDA v : PT(<<V0(v)>>, Vars0(Before(topo, v)), 0), T))
+\* Q[H^(i)] = sum of QH over the members of Hs after position i
+QUpTo(QH, ho, i) == SumT({ho[j] : j \in (i + 1)..Len(ho)}, QH)
+QLemma4(QH, Hs, Tp, topo) ==
+  LET ho == SubOrder(topo, Hs) IN
+  ProdT(SeqOfSet(LAMBDA v : LET i == PosOf(ho, v) IN FT(QUpTo(QH, ho, i), QUpTo(QH, ho, i - 1)), Tp))
+
+RECURSIVE TianIdentify(_, _, _, _, _)
+\* Q[C] from QT = Q[T], C subset of T, both single districts of their induced subgraphs; Fail if not identifiable
+TianIdentify(G, C, T, QT, topo) ==
+  LET A == An(SubG(G, T), C) IN
+  IF A = C THEN SumT(T \ C, QT)
+  ELSE IF A = T THEN Fail
+  ELSE LET Tp == Pick({D \in Districts(SubG(G, A)) : C \subseteq D})
+           QA == SumT(T \ A, QT)
+       IN TianIdentify(G, C, Tp, QLemma4(QA, A, Tp, topo), topo)
+
+\* all (T, C) pairs meeting the precondition of IDENTIFY
+TianPairs(G) == {<<T, C>> \in Districts(G) \X (SUBSET G.n) :
+                   C # {} /\ C \subseteq T /\ Districts(SubG(G, C)) = {C}}
+
 \* ---------------------------------------------------------------- hedges by brute force
 \* F is an R-rooted C-forest of G: a single district in G[F], every node has at most one child in
 \* the forest's edge set -- equivalently (Shpitser-Pearl) there is a sub-forest; it suffices to ask
